@@ -33,6 +33,9 @@ structure Burst where
   sfl : Nat
   ses : Nat
   msg : Nat
+  slow : Nat
+  z : Nat
+  sib : Nat
   dw : String
 
 def fieldOk (ws : List String) (key : String) : Option Nat :=
@@ -54,18 +57,22 @@ def parseBurst (ws : List String) : Option Burst := do
   let sfl ← fieldOk ws "sfl"
   let ses ← fieldOk ws "ses"
   let msg ← fieldOk ws "msg"
+  let slow ← fieldOk ws "slow"
+  let z ← fieldOk ws "z"
+  let sib ← fieldOk ws "sib"
   let dw ← kv ws "dw"
   if !(["sleep", "yield", "spin", "mix"].contains dw) then none
-  else if p < 1 || p > 16 || tmo > 1 || ses > 40 || msg > 40 then none
-  else some { p, post, tmr, rep, lev, gev, req, raw, ntf, tmo, sfl, ses, msg, dw }
+  else if p < 1 || p > 16 || tmo > 1 || ses > 40 || msg > 40 || slow > 10 || sib > 12 then none
+  else some { p, post, tmr, rep, lev, gev, req, raw, ntf, tmo, sfl, ses, msg, slow, z, sib, dw }
 
 def b2n (b : Bool) : Nat := if b then 1 else 0
 
 /-- entries per kind of one service, in the harness' fixed order; `front` = the service that owns the client sessions -/
 def counts (b : Burst) (front : Bool) : List (String × Nat) :=
-  [("post", b.post + b2n (b.tmr + b.rep > 0) + b2n (b.req + b.raw + b.tmo + b.sfl > 0)),
-   ("tmr", b.tmr + b.rep), ("lev", b.lev), ("gev", b.gev), ("req", b.req), ("mute", b.tmo),
-   ("raw", b.raw), ("ntf", b.ntf), ("rsp", b.req + b.raw), ("tmo", b.tmo), ("sfl", b.sfl)] ++
+  [("post", b.post + b2n (b.tmr + b.rep + b.z > 0) + b2n (b.req + b.raw + b.tmo + b.sfl > 0) + b2n (front && b.sib > 0)),
+   ("tmr", b.tmr + b.rep), ("tz", 2 * b.z), ("lev", b.lev), ("gev", b.gev), ("req", b.req), ("mute", b.tmo),
+   ("raw", b.raw), ("ntf", b.ntf + 3 * b.slow), ("slow", b.slow), ("sib", if front then b.sib else 0),
+   ("rsp", b.req + b.raw), ("tmo", b.tmo), ("sfl", b.sfl)] ++
   (if front then [("sadd", b.ses), ("smsg", b.ses * b.msg), ("srem", b.ses)] else [])
 
 /-- the observation of a serial service: goroutine set {1}, at most 1 in flight -/
@@ -77,7 +84,7 @@ def step (s : St) (line : String) : St × String :=
   match ws with
   | ["reset"] => ({ started := true }, "ok A:post=1/1/1 B:post=1/1/1")
   | "burst" :: rest =>
-    if ws.length != 15 || !s.started then (s, "bad-op")
+    if ws.length != 18 || !s.started then (s, "bad-op")
     else match parseBurst rest with
       | none => (s, "bad-op")
       | some b => (s, "ok A:" ++ showSvc (counts b true) ++ " B:" ++ showSvc (counts b false))
@@ -114,7 +121,7 @@ def specLine (line : String) : String :=
         | some e => "VIOLATION C04/second-goroutine service code ran off the service's goroutine: " ++ e.1 ++ " after: " ++ op
         | none =>
           match elems.find? (fun e => match e.2 with | some (_, m) => !m.ok | none => false) with
-          | some e => "VIOLATION C04/overlapping-handlers two goroutines inside one service's code: " ++ e.1 ++ " after: " ++ op
+          | some e => "VIOLATION C04/overlapping-handlers two pieces of one service's code in progress at once: " ++ e.1 ++ " after: " ++ op
           | none => "ok"
     | _ => "ok"
   | _ => "bad-line"
